@@ -176,6 +176,8 @@ func runC06(c *eng.Ctx) {
 	}
 
 	// ---- R06.1 op coverage
+	c.Rule("R06.9", "K1")
+	ruleLeaderEpochIsNotThePartitionEpoch(c)
 	c.Rule("R06.1", "K6")
 	opT := p.NamedType("server/protocol", "Op")
 	if opT == nil {
@@ -868,7 +870,7 @@ func liveAlias(c *eng.Ctx, v ssa.Value, depth int) string {
 		if sc != nil && c.P.IsModuleFunc(sc) {
 			// what does the callee return?
 			for _, r := range eng.Returns(sc) {
-				for _, res := range r.Results {
+				for _, res := range eng.RetVals(r) {
 					if !isPointerLike(res.Type()) {
 						continue
 					}
@@ -917,7 +919,7 @@ func ndLeaf(v ssa.Value, nd map[string]bool, depth int, seen map[ssa.Value]bool)
 		}
 		if sc := x.Call.StaticCallee(); sc != nil && sc.Blocks != nil && sc.Pkg != nil && ir.InModule(sc.Pkg.Pkg.Path()) {
 			for _, r := range eng.Returns(sc) {
-				for _, res := range r.Results {
+				for _, res := range eng.RetVals(r) {
 					if s := ndLeaf(res, nd, depth+1, seen); s != "" {
 						return s
 					}
